@@ -12,6 +12,8 @@
 From Coq Require Import List Arith Bool NArith.
 From NV Require Import Io.Sched Io.SchedProofs Bgzf.MtWriter Bgzf.MtWriterProofs Bgzf.MtReader Bgzf.MtReaderProofs.
 From NV Require Bgzf.Vpos Bgzf.Gzi Bgzf.ReaderOps Bgzf.MtReaderOps Bgzf.MtReaderOpsProofs.
+From NV Require Bgzf.MtReaderErr Bgzf.MtReaderErrProofs Io.SchedFair.
+From NV Require Sinks.Sink Sinks.SinkProofs Sinks.Mt Sinks.MtApp Bgzf.MtWriterApi.
 Import ListNotations.
 
 (* ---------------------------------------------------------------- generic pipeline *)
@@ -394,3 +396,218 @@ Example c03_mt_reader_example :
   /\ sel ops (m_run 2 sch f [] (m_init f) ops) = ReaderOps.run true f [] (ReaderOps.init f) (strip ops).
 Proof. vm_compute. repeat split; try reflexivity; discriminate. Qed.
 End OPS.
+
+(* ============================================================================================
+   OP HISTORIES THAT CONTINUE AFTER A CORRUPT BLOCK OR A FRAME ERROR
+   (model: NV.Bgzf.MtReaderErr -- parsed files whose frames may be SEarly: parse_frame fails, block
+   untouched; SLate: inflate / CRC fails after block_initialize; SFrame: read_frame_into fails, last
+   frame of the file -- the MultithreadedReader after e327f10 / 137acf0 / 1d90f27 with the Err
+   ticket recycled and self.buffer / self.position untouched, next to the single-threaded Reader
+   with its error paths written out, [fxe] = false: the tree as it is, [fxe] = true: after the
+   repair proposed for finding str-failed-block-stays-current-after-inflate-error).
+   ============================================================================================ *)
+Module ERR.
+Import NV.Bgzf.Vpos NV.Bgzf.Gzi NV.Bgzf.ReaderOps NV.Io.Sched NV.Bgzf.MtReaderOps NV.Bgzf.MtReaderErr
+       NV.Bgzf.MtReaderErrProofs.
+
+(* THE STATEMENT THE PROPERTY ASKS FOR on such files: for every file, pool size, schedule, index
+   and history the multithreaded reader gives, op by op, the results (errors included) and virtual
+   positions of the single-threaded reader of the tree as it is. *)
+Definition c03_err_mt_equals_st_full_statement : Prop :=
+  forall (P : nat) (sch : nat -> list act) (f : efile) (idx : gzi_index) (ops : list op),
+    (0 < P)%nat -> ewf f ->
+    em_run P sch f idx (em_init f) (map MOp ops) = e_run false f idx (e_init f) ops.
+
+(* It does NOT hold (finding str-failed-block-stays-current-after-inflate-error): data, a block
+   with a flipped CRC bit, data, EOF marker; read 5, read 100, read 100.  The single-threaded
+   reader reports position 0:0 after the error and then hands out the 7 unverified bytes. *)
+Theorem c03_err_pinned_st_refuted : ~ c03_err_mt_equals_st_full_statement.
+Proof. exact err_full_statement_refuted. Qed.
+Print Assumptions c03_err_pinned_st_refuted.
+
+(* POSITIVE THEOREM 1 (the tree as it is): on every file WITHOUT a late-failing block -- bad gzip /
+   BGZF header fields, ISIZE out of range, BSIZE < 25, a truncated last frame, anywhere and any
+   number of them -- the full statement holds: every history, continuing after every error, every
+   pool size, every schedule. *)
+Theorem c03_err_mt_equals_st_pinned :
+  forall (P : nat) (sch : nat -> list act) (f : efile) (idx : gzi_index) (ops : list op),
+    (0 < P)%nat -> ewf f -> no_late f ->
+    em_run P sch f idx (em_init f) (map MOp ops) = e_run false f idx (e_init f) ops.
+Proof. exact mt_err_equals_st_pinned. Qed.
+Print Assumptions c03_err_mt_equals_st_pinned.
+
+(* POSITIVE THEOREM 2 (after the proposed repair of the single-threaded reader): ALL files, late
+   failures included, on every history in which no seek runs into a late-failing block while the
+   current block still has unread data ([e_safe], a decidable condition on file + history). *)
+Theorem c03_err_mt_equals_st_repaired :
+  forall (P : nat) (sch : nat -> list act) (f : efile) (idx : gzi_index) (ops : list op),
+    (0 < P)%nat -> ewf f -> e_safe f idx (e_init f) ops = true ->
+    em_run P sch f idx (em_init f) (map MOp ops) = e_run true f idx (e_init f) ops.
+Proof. intros P sch f idx ops HP. exact (mt_err_equals_st P sch HP f idx ops). Qed.
+Print Assumptions c03_err_mt_equals_st_repaired.
+
+(* the excluded class is real: a failed seek onto a corrupt block while the current block has
+   unread data leaves the multithreaded reader serving the old block out of its own buffer *)
+Example c03_err_unsafe_seek_differs :
+  let f := [mkE (mkFrame 33 [10; 11; 12; 13; 14]) SGood; mkE (mkFrame 35 [20; 21]) (SLate 2 [20; 21]); mkE (mkFrame 28 []) SGood]%N in
+  let ops := [Read 2; Seek (pack 33 0); Read 10]%N in
+  e_safe f [] (e_init f) ops = false /\
+  em_run 1 (fun _ => []) f [] (em_init f) (map MOp ops) <> e_run true f [] (e_init f) ops.
+Proof. split; [vm_compute; reflexivity|]. intro H. vm_compute in H. discriminate. Qed.
+
+(* the two single-threaded readers differ only through late failures *)
+Theorem c03_err_st_pinned_is_repaired :
+  forall (f : efile) (idx : gzi_index) (ops : list op) (st : estate),
+    no_late f -> no_late (e_rest st) -> e_run false f idx st ops = e_run true f idx st ops.
+Proof. exact st_pinned_is_repaired. Qed.
+Print Assumptions c03_err_st_pinned_is_repaired.
+
+(* hence nothing depends on the pool size or the schedule, errors included *)
+Theorem c03_err_schedule_indep :
+  forall P sch P' sch' f idx ops,
+    (0 < P)%nat -> (0 < P')%nat -> ewf f -> e_safe f idx (e_init f) ops = true ->
+    em_run P sch f idx (em_init f) (map MOp ops) = em_run P' sch' f idx (em_init f) (map MOp ops).
+Proof. intros. rewrite !c03_err_mt_equals_st_repaired by assumption. reflexivity. Qed.
+Print Assumptions c03_err_schedule_indep.
+
+(* what one wait for a block delivers, whatever the schedule: the results are taken in file order
+   up to and including the first block with data or the FIRST ERROR (the error ticket of a frame
+   error is answered by the reader thread itself, that of a corrupt block by its pool task); the
+   application's block and position are untouched by an error *)
+Theorem c03_err_pull_is_sequential :
+  forall P, (0 < P)%nat -> forall seg (s : epst), SchedProofs.wf eframe erdr s ->
+    let s' := epull_with P seg s in
+    SchedProofs.wf eframe erdr s' /\
+    (cs s', eremaining s')
+    = seq_run erd_step erd_stopped
+              (mkER true (er_position (cs s)) (er_blk (cs s)) (S (epulls (cs s))) None) (eremaining s).
+Proof. exact epull_spec. Qed.
+Print Assumptions c03_err_pull_is_sequential.
+
+(* every wait ends, also after any number of errors (the buffer of an Err ticket is recycled:
+   repair of mtr-read-hangs-after-buffer-count-corrupt-blocks) *)
+Theorem c03_err_pull_ends :
+  forall P, (0 < P)%nat -> forall s, SchedProofs.wf eframe erdr s -> epfinal (epcomplete P s) = true.
+Proof. exact epcomplete_final. Qed.
+Print Assumptions c03_err_pull_ends.
+
+(* finish() after any such history returns and hands the inner reader back *)
+Theorem c03_err_finish_returns :
+  forall (P : nat) (sch : nat -> list act) (f : efile) (idx : gzi_index) (ops : list op),
+    (0 < P)%nat -> ewf f -> e_safe f idx (e_init f) ops = true ->
+    exists off vp,
+      em_run P sch f idx (em_init f) (map MOp ops ++ [Finish])
+      = e_run true f idx (e_init f) ops ++ [(OPos (Ok off), vp)] /\ (off <= ecsum f)%N.
+Proof. intros P sch f idx ops HP. exact (mt_err_finish_returns P sch HP f idx ops). Qed.
+Print Assumptions c03_err_finish_returns.
+
+(* non-vacuity: a CRC failure, then a header failure, data, a truncated last frame; pool of 2, the
+   inflate tasks of the first wait complete in the order 2, 1, 0.  Each error is returned once, by
+   the read that reaches it; reading goes on with the next block; after the truncated frame the
+   input is at its end; a seek back onto the corrupt block fails again; finish returns. *)
+Example c03_err_example :
+  let f := [mkE (mkFrame 33 [10; 11; 12; 13; 14]) SGood; mkE (mkFrame 35 [20; 21]) (SLate 2 [20; 21]);
+            mkE (mkFrame 30 [30]) SEarly; mkE (mkFrame 31 [40; 41; 42]) SGood;
+            mkE (mkFrame 25 [50]) (SFrame UnexpectedEof)]%N in
+  let sch := sch_of [[0; 0; 0; 1; 1; 1; 6; 5; 4]]%nat in
+  let ops := [Read 5; Read 9; Read 9; Read 9; Read 9; Read 9; Seek (pack 33 0); Read 9]%N in
+  em_run 2 sch f [] (em_init f) (map MOp ops ++ [Finish])
+  = [ (OBytes (Ok [10; 11; 12; 13; 14]), Ok (pack 33 0)); (OBytes (Err InvalidData), Ok (pack 33 0));
+      (OBytes (Err InvalidData), Ok (pack 33 0)); (OBytes (Ok [40; 41; 42]), Ok (pack 64 0));
+      (OBytes (Err UnexpectedEof), Ok (pack 64 0)); (OBytes (Ok []), Ok (pack 64 0));
+      (OPos (Err InvalidData), Ok (pack 64 0)); (OBytes (Err InvalidData), Ok (pack 64 0));
+      (OPos (Ok 154), Ok (pack 64 0)) ]%N
+  /\ e_safe f [] (e_init f) ops = true /\ ewf f.
+Proof.
+  split; [vm_compute; reflexivity|]. split; [vm_compute; reflexivity|].
+  repeat constructor; vm_compute; congruence.
+Qed.
+End ERR.
+
+(* ============================================================================================
+   LIVENESS UNDER INFINITE SCHEDULES (NV.Io.SchedFair; generic pipeline, hence writer thread,
+   reader thread and every wait of the application)
+   ============================================================================================ *)
+Module FAIR.
+Import NV.Io.SchedFair.
+
+(* whatever the (infinite) schedule, at most [measure s] of its actions ever take effect: there is
+   no infinite run of enabled actions *)
+Theorem c03_effective_steps_bounded :
+  forall (item res cst : Type) (f : item -> res) (ready : item -> bool) (cstep : cst -> res -> cst)
+         (stopped : cst -> bool) (can_submit : nat -> bool -> bool) (pool : nat),
+    0 < pool -> forall (sigma : nat -> act) (n : nat) (s : st item cst),
+    effective item res cst f ready cstep stopped can_submit pool sigma n s
+    + measure (prefix_run item res cst f ready cstep stopped can_submit pool sigma n s) <= measure s.
+Proof. exact effective_bounded. Qed.
+Print Assumptions c03_effective_steps_bounded.
+
+(* FAIR TERMINATION: under every infinite schedule that, while the pipeline is not final,
+   eventually plays some action that is enabled when it is played, a final state is reached:
+   finish()/join and every wait return *)
+Theorem c03_fair_terminates :
+  forall (item res cst : Type) (f : item -> res) (ready : item -> bool) (cstep : cst -> res -> cst)
+         (stopped : cst -> bool) (can_submit : nat -> bool -> bool) (pool : nat),
+    0 < pool -> forall (sigma : nat -> act) (s : st item cst),
+    fair item res cst f ready cstep stopped can_submit pool sigma s ->
+    exists n, final stopped (prefix_run item res cst f ready cstep stopped can_submit pool sigma n s) = true.
+Proof. exact fair_terminates. Qed.
+Print Assumptions c03_fair_terminates.
+
+(* the fairness assumption can always be met: every reachable non-final state has an enabled action *)
+Theorem c03_fair_satisfiable :
+  forall (item res cst : Type) (f : item -> res) (ready : item -> bool) (cstep : cst -> res -> cst)
+         (stopped : cst -> bool) (can_submit : nat -> bool -> bool) (pool : nat),
+    0 < pool -> can_submit 0 false = true ->
+    forall (sigma : nat -> act) (k : nat) (s : st item cst), wf item cst s ->
+      final stopped (prefix_run item res cst f ready cstep stopped can_submit pool sigma k s) = false ->
+      exists a, enabled stopped can_submit pool (prefix_run item res cst f ready cstep stopped can_submit pool sigma k s) a = true.
+Proof. exact fair_satisfiable. Qed.
+Print Assumptions c03_fair_satisfiable.
+
+(* instance: MultithreadedWriter::finish() under a fair scheduler, any sink fault position *)
+Theorem c03_writer_fair_finish :
+  forall (chunk : Type) (frame_of : blk -> list chunk) (fail_at : option nat) (P : nat),
+    0 < P -> forall ops (sigma : nat -> act),
+    fair blk (list chunk) (sink chunk) frame_of w_ready (write_frame fail_at) serr (w_can_submit P) P sigma (w_init chunk ops) ->
+    exists n, w_final chunk (prefix_run blk (list chunk) (sink chunk) frame_of w_ready (write_frame fail_at) serr
+                                      (w_can_submit P) P sigma n (w_init chunk ops)) = true.
+Proof. intros chunk frame_of fail_at P HP ops sigma. apply fair_terminates. exact HP. Qed.
+Print Assumptions c03_writer_fair_finish.
+End FAIR.
+
+(* ============================================================================================
+   THE WRITER AT API-CALL LEVEL (application-thread model: property C14's NV.Sinks.MtApp, imported
+   read-only; combined in NV.Bgzf.MtWriterApi)
+   ============================================================================================ *)
+Module API.
+Import NV.Sinks.Sink NV.Sinks.SinkProofs NV.Sinks.Mt NV.Sinks.MtApp NV.Bgzf.MtWriterApi.
+
+(* EVERY joint schedule of application thread, pool and writer thread, EVERY fault script: all
+   calls but the last return Ok; the last one returns the writer thread's result r, which with the
+   sink is that of the sequential `?`-chain; r = Ok only from finish(), and then the sink holds
+   exactly the single-threaded writer's file *)
+Theorem c03_writer_api_equals_st :
+  forall P maxbuf frames, 0 < maxbuf -> forall ops sched s,
+    let x := mta_run P maxbuf frames ops sched s in
+    m_done x = true ->
+    exists j r s',
+      m_rs x = repeat Ok j ++ [r] /\ j <= length ops /\
+      mt_result (m_pipe x) = (r, s') /\
+      run_calls (mt_calls maxbuf frames ops) s = (r, s') /\
+      (r = Ok -> j = length ops /\ sbytes s' = sbytes s ++ st_file maxbuf frames ops).
+Proof. exact mtw_api_equals_st. Qed.
+Print Assumptions c03_writer_api_equals_st.
+
+(* a consumed sink failure is the result of exactly one call -- the last one made -- and the sink
+   holds a prefix of the single-threaded file *)
+Theorem c03_writer_api_failure_reported :
+  forall P maxbuf frames, 0 < maxbuf -> forall ops sched s c e,
+    let x := mta_run P maxbuf frames ops sched s in
+    m_done x = true ->
+    sscript s = c ++ sscript (snd (mt_result (m_pipe x))) -> In (Fail e) c -> e <> e_interrupted ->
+    (exists j, j <= length ops /\ m_rs x = repeat Ok j ++ [Err e]) /\
+    exists p, sbytes (snd (mt_result (m_pipe x))) = sbytes s ++ p /\ prefix p (st_file maxbuf frames ops).
+Proof. exact mtw_api_failure_reported. Qed.
+Print Assumptions c03_writer_api_failure_reported.
+End API.
